@@ -13,10 +13,13 @@ Thresholds == {0, 1, 2, 3, MAXT}
 SeqsUpTo(S, n) == UNION {[1..m -> S] : m \in 0..n}
 SigSet == [kid : SigKeys, by : SigKeys, ok : BOOLEAN]
 
+\* one signature repeated with another one in between (non-adjacent duplicates)
+SplitDups == {<<a, b, a>> : a \in SigSet, b \in SigSet}
+
 MCInit ==
   /\ t \in Thresholds
   /\ auth \in SeqsUpTo(Keys, MaxAuth)
-  /\ sigs \in SeqsUpTo(SigSet, MaxSigs)
+  /\ sigs \in SeqsUpTo(SigSet, MaxSigs) \cup SplitDups
   /\ MInitRest
 
 MCSpec == MCInit /\ [][MNext]_mvars
